@@ -276,7 +276,7 @@ def run_case(case):
             elif k == 'sequence':
                 run_sequence(pe, acc, case, d)
             elif k == 'misaligned':
-                run_misaligned(pe, acc, case)
+                run_misaligned(pe, acc, case, d)
     finally:
         shutil.rmtree(d, ignore_errors=True)
     return acc
@@ -292,7 +292,7 @@ MIS_OTHER = {   # equally long, same first and last configuration, different int
 }
 
 
-def run_misaligned(pe, acc, case):
+def run_misaligned(pe, acc, case, d):
     """Members of one list / array / correlator that live on DIFFERENT configuration lists of the same length: the format stores
     one configuration list per structure, so the writer (or the Corr constructor) has to refuse -- or the round trip is faithful."""
     for base, how, nrep, where in itertools.product(MIS_BASE, MIS_OTHER, (1, 2), ('first', 'second')):
@@ -317,6 +317,25 @@ def run_misaligned(pe, acc, case):
                 text, back = roundtrip_string(pe, s, 1)
             except Exception:
                 acc.ok(('mis', base, how, nrep, where, sname), True, 'misaligned-refused')
+                # a refused request leaves nothing behind: a valid document written before under the same file name is still there
+                if sname in ('list', 'array', 'Corr') and nrep == 1:
+                    for gz in (True, False):
+                        fn = os.path.join(d, 'keep_%s' % ('gz' if gz else 'plain'))
+                        pe.input.json.dump_to_json(a, fn, description='kept', gz=gz)
+                        try:
+                            pe.input.json.dump_to_json(wrap([a, b]) if sname == 'list' else np.array([a, b], dtype=object), fn, description='refused', gz=gz)
+                            refused = False
+                        except Exception:
+                            refused = True
+                        try:
+                            kept = pe.input.json.load_json(fn, verbose=False, gz=gz)
+                            badk = same_struct(a, kept, pe) if refused else None
+                        except Exception as e:
+                            badk = 'the file can no longer be read: %s: %s' % (type(e).__name__, e)
+                        if badk:
+                            acc.fail('json:refused-write-destroys-file', dict(sub, gz=gz), 'a refused dump_to_json over an existing document (%s, gz=%s) left the file changed: %s' % (sname, gz, badk))
+                        else:
+                            acc.ok(('mis-keep', base, how, sname, gz), True, 'refused-write-keeps-file')
                 continue
             bad = same_struct(s, back, pe)
             if bad:
